@@ -176,8 +176,8 @@ fn case_json(mat: &Mat, query: Value, dist: Option<&Dist>) -> Value {
     m.insert(
         "rust_repro".into(),
         json!(format!(
-            "let pssm = ScoringMatrix::<Dna>::new(Background::from_counts(&GenericArray::from({:?})).unwrap(), DenseMatrix::from_rows({:?})); let dist = pssm.to_score_distribution();",
-            mat.bg_counts, mat.rows
+            "let pssm = ScoringMatrix::<Dna>::new(Background::from_counts(&GenericArray::from({:?})).unwrap(), DenseMatrix::from_rows({})); let dist = pssm.to_score_distribution();",
+            mat.bg_counts, mat.rust_rows()
         )),
     );
     v
